@@ -130,7 +130,7 @@ def disagree(lib, page):
     return None
 
 
-def minimise(lib, page, budget=250):
+def minimise(lib, page, budget=2500):
     """Greedy delta-minimisation over page and library ASTs while the disagreement persists."""
     steps = 0
     improved = True
